@@ -6,11 +6,12 @@ use std::collections::HashSet;
 
 use toodee::{TooDee, TooDeeOps, TooDeeOpsMut};
 
-use crate::engine::ledger::{self, Tracked};
+use super::elem::Elem;
+use crate::engine::ledger;
 use crate::engine::{guarded, Case};
 
 /// Returns false if the array had to be abandoned (forgotten) because it is not trustworthy.
-pub fn exam(mut t: TooDee<Tracked>, cs: &mut Case, what: &str) -> bool {
+pub fn exam<E: Elem>(mut t: TooDee<E>, cs: &mut Case, what: &str) -> bool {
     if !shape_ok(&t, cs, what) {
         std::mem::forget(t);
         return false;
@@ -21,20 +22,17 @@ pub fn exam(mut t: TooDee<Tracked>, cs: &mut Case, what: &str) -> bool {
     for r in 0..nr {
         for c in 0..nc {
             let e = &t[(c, r)];
-            if !e.canary_ok() {
-                cs.fail("after-fault:garbage-cell", format!("{}: cell ({},{}) holds a value that was never constructed", what, c, r));
+            if !e.sane() {
+                cs.fail("after-fault:dead-cell", format!("{}: cell ({},{}) holds a dead or never-constructed element {:?}", what, c, r, e));
                 std::mem::forget(t);
                 return false;
             }
-            if !ledger::is_live(e.id) {
-                cs.fail("after-fault:dead-cell", format!("{}: cell ({},{}) holds element id {} which has already been dropped", what, c, r, e.id));
-                std::mem::forget(t);
-                return false;
-            }
-            if !ids.insert(e.id) {
-                cs.fail("after-fault:duplicate-cell", format!("{}: element id {} is reachable through two cells", what, e.id));
-                std::mem::forget(t);
-                return false;
+            if let Some(id) = e.ident() {
+                if !ids.insert(id) {
+                    cs.fail("after-fault:duplicate-cell", format!("{}: element id {} is reachable through two cells", what, id));
+                    std::mem::forget(t);
+                    return false;
+                }
             }
         }
     }
@@ -42,12 +40,12 @@ pub fn exam(mut t: TooDee<Tracked>, cs: &mut Case, what: &str) -> bool {
     let used = guarded(|| {
         let mut n = 0usize;
         for row in t.rows() {
-            n += row.iter().filter(|e| e.valid()).count();
+            n += row.iter().filter(|e| e.sane()).count();
         }
-        let m = t.cells().filter(|e| e.valid()).count();
+        let m = t.cells().filter(|e| e.sane()).count();
         let mut k = 0usize;
         for c in 0..t.num_cols() {
-            k += t.col(c).filter(|e| e.valid()).count();
+            k += t.col(c).filter(|e| e.sane()).count();
         }
         (n, m, k)
     });
@@ -62,16 +60,16 @@ pub fn exam(mut t: TooDee<Tracked>, cs: &mut Case, what: &str) -> bool {
     // modify: replace a cell, grow and shrink in both directions
     let r = guarded(|| {
         if nc > 0 {
-            t[(0, 0)] = Tracked::new(777);
+            t[(0, 0)] = E::make(777);
             let last = (nc - 1, nr - 1);
-            t[last] = Tracked::new(778);
+            t[last] = E::make(778);
         }
         let w = if t.num_cols() == 0 { 2 } else { t.num_cols() };
-        t.push_row((0..w).map(|i| Tracked::new(800 + i as u32)).collect::<Vec<_>>());
+        t.push_row((0..w).map(|i| E::make(800 + i as u32)).collect::<Vec<_>>());
         let h = t.num_rows();
-        t.push_col((0..h).map(|i| Tracked::new(820 + i as u32)).collect::<Vec<_>>());
-        t.insert_row(0, (0..t.num_cols()).map(|i| Tracked::new(840 + i as u32)).collect::<Vec<_>>());
-        t.insert_col(0, (0..t.num_rows()).map(|i| Tracked::new(860 + i as u32)).collect::<Vec<_>>());
+        t.push_col((0..h).map(|i| E::make(820 + i as u32)).collect::<Vec<_>>());
+        t.insert_row(0, (0..t.num_cols()).map(|i| E::make(840 + i as u32)).collect::<Vec<_>>());
+        t.insert_col(0, (0..t.num_rows()).map(|i| E::make(860 + i as u32)).collect::<Vec<_>>());
         drop(t.remove_col(0));
         drop(t.remove_row(0));
         if let Some(mut d) = t.pop_col() {
@@ -94,8 +92,8 @@ pub fn exam(mut t: TooDee<Tracked>, cs: &mut Case, what: &str) -> bool {
         cs.fail("after-fault:modify-wrong-size", format!("{}: push/pop round trip changed the size from {:?} to {:?}", what, (nc, nr), t.size()));
     }
     for e in t.data() {
-        if !e.valid() {
-            cs.fail("after-fault:dead-cell", format!("{}: after modification a cell holds a dead element id {}", what, e.id));
+        if !e.sane() {
+            cs.fail("after-fault:dead-cell", format!("{}: after modification a cell holds a dead element {:?}", what, e));
             std::mem::forget(t);
             return false;
         }
@@ -104,7 +102,7 @@ pub fn exam(mut t: TooDee<Tracked>, cs: &mut Case, what: &str) -> bool {
     ledger_ok(cs, what)
 }
 
-pub fn shape_ok(t: &TooDee<Tracked>, cs: &mut Case, what: &str) -> bool {
+pub fn shape_ok<E: Elem>(t: &TooDee<E>, cs: &mut Case, what: &str) -> bool {
     let (nc, nr) = t.size();
     let len = t.data().len();
     if nc.checked_mul(nr) != Some(len) {
@@ -129,6 +127,10 @@ pub fn ledger_ok(cs: &mut Case, what: &str) -> bool {
     }
     if gd > 0 {
         cs.fail("after-fault:garbage-drop", format!("{}: {} drop(s) of never-constructed values: {}", what, gd, first.unwrap_or_default()));
+    }
+    if ledger::zst_dropped() > ledger::zst_created() {
+        cs.fail("after-fault:double-drop", format!("{}: {} zero-sized elements dropped but only {} created", what, ledger::zst_dropped(), ledger::zst_created()));
+        return false;
     }
     dd == 0 && gd == 0
 }
